@@ -120,6 +120,21 @@ def specs(r):
         for k, v in ob["jobs"].items():
             if v[5] == 1:
                 qs.append((f"spec eq {v[4]} 1", {"what": "retired_vanish", "key": k, "op": i}))
+    # chronological trace of the whole history: no coroutine start after its job's deletion returned
+    last_trace = r["obs"][-1].get("trace", []) if r["obs"] else []
+    dead = set()
+    for (kind, k) in last_trace:
+        if kind == "D":
+            dead.add(k)
+        elif kind == "S" and k in dead:
+            qs.append(("spec eq 0 1", {"what": "no_start_after_delete (chronological trace)", "key": k}))
+            break
+    # a job that vanished without being deleted must have no attempts remaining
+    if r["obs"]:
+        lastj = r["obs"][-1]["jobs"]
+        for k, v in lastj.items():
+            if v[5] == 0 and k not in dead:
+                qs.append((f"spec eq {v[4]} 0", {"what": "vanished although attempts remain and nobody deleted it", "key": k}))
     done = {}
     for ob in r["obs"]:
         for (t, k, kind, due) in ob.get("events", []):
